@@ -896,8 +896,8 @@ def subgraph_centrality(CIJ):
     '''
     from scipy import linalg
 
-    vals, vecs = linalg.eig(CIJ)  # compute eigendecomposition
-    # lambdas=np.diag(vals)
-    # compute eigenvector centr.
-    Cs = np.real(np.dot(vecs * vecs, np.exp(vals)))
-    return Cs  # imaginary part from precision error
+    # diagonal of the matrix exponential. (The eigenvector form
+    # sum_k v_ik^2 exp(lambda_k) needs an orthonormal eigenbasis, which
+    # linalg.eig does not deliver for repeated eigenvalues.)
+    Cs = np.real(np.diag(linalg.expm(np.array(CIJ, dtype=float))))
+    return Cs
